@@ -212,6 +212,7 @@ pub fn run(tier: &str, seed: u64) -> i32 {
         rd.idx = descs.len();
         descs.push(rd);
     }
+    crate::rustharness::append_corpus(&mut descs, "java");
     let dir = work_dir().join(format!("java-{tier}-{seed}"));
     let (descs, d2) = build_java(&dir, descs);
     dropped += d2;
